@@ -71,14 +71,19 @@ FailedExpired(r, t) == r.st = "failed" /\ t - r.t1 > MustExpireUS
 Inj == /\ IsEvent("inj") /\ owed = {} /\ plearn = {}
        /\ LET e == Ev
               lrn(h, def) == [h |-> h, mac |-> e.smac, def |-> def, t |-> e.t]
+              \* NDP message without the source / target link-layer address option: the link address would have to be
+              \* taken from the frame; RFC 4861 does not require a receiver to do so: learning is allowed, not required
+              must == ~Fld(e, "noopt", FALSE)
           IN IF ~e.valid \/ e.cls = "other" THEN owed' = {} /\ plearn' = {}
              ELSE IF e.cls = "req"
              THEN IF e.target \in own
                   THEN /\ owed' = {[v |-> e.v, target |-> e.target, smac |-> e.smac, sip |-> e.sip, rmac |-> e.rmac]}
-                       /\ plearn' = {lrn(e.sip, TRUE)}
+                       /\ plearn' = {lrn(e.sip, must)}
                   ELSE /\ owed' = {} /\ plearn' = {lrn(e.sip, FALSE)}
+             \* a reply "for X": X is the sender protocol address of an ARP reply / the TARGET field of a neighbour
+             \* advertisement (sip); the IPv6 source of the advertisement (sip2, when different) may be learned as well
              ELSE /\ owed' = {}
-                  /\ plearn' = {lrn(e.sip, TRUE)} \cup (IF Fld(e, "sip2", "") # "" THEN {lrn(e.sip2, TRUE)} ELSE {})
+                  /\ plearn' = {lrn(e.sip, must)} \cup (IF Fld(e, "sip2", "") # "" THEN {lrn(e.sip2, FALSE)} ELSE {})
        /\ ncre' = ncre + Cardinality(plearn')      \* every learned mapping creates at most one entry
        /\ UNCHANGED <<own, mymac, nb, pend, sent>>
 
